@@ -8,7 +8,14 @@
      add_flavor, declare_rec, db_declare, make_product, db_find
                                         VersionFile.addFlavor, Database.declare (on records / on the text
                                         of the version file), VersionFile.makeProduct, Database.findProduct
-     ex : str -> bool                   the file-existence oracle (os.path.exists / isfile / isdir)
+     ex : str -> bool                   the file-existence oracle (os.path.exists / isfile / isdir), asked by
+                                        the name a path is spelt with
+     pe : penv                          (Model/Paths.v) the table of symbolic links (name of the link, the
+                                        name it resolves to; realpath follows it) and the current directory
+     link_view lk root rroot            (Proofs/Links.v) the stack named root is the directory rroot: root and
+                                        every name below it resolve to the same place below rroot
+     out_real pe rroot dk tk            (Proofs/Declare.v) directories and table files outside the stack
+                                        resolve to places outside rroot
      norm, norm_info, cnorm             (Proofs/Records.v) a record as it is read back: printed fields in
                                         file order, an absent PROD_DIR as None, an absent TABLE_FILE as the
                                         word none, an absent UPS_DIR as none when there is a table file
@@ -24,11 +31,12 @@
      dir_at root dk, table_at root dk tk   where directory and table file are for a stack at root
      tab_ok, decl_ok, find_ok           side conditions, spelt out in Proofs/Declare.v: the placement is what
                                         its kind says and nothing more specific; when declaring, the stack
-                                        root and an inside table file exist and only absolute paths exist;
+                                        root and an inside table file exist (nothing is assumed about the
+                                        current directory or the relative names that exist in it);
                                         when looking up, the table file exists where it belongs and is not
                                         shadowed by a file of the same relative name *)
 From Eupsv Require Import Base.Base Base.BaseLemmas Model.Paths Model.Records
-  Proofs.RecordsLib Proofs.PathsLib Proofs.Records Proofs.Paths Proofs.Declare.
+  Proofs.RecordsLib Proofs.PathsLib Proofs.Records Proofs.Paths Proofs.Links Proofs.Declare.
 
 (* ------------------------------------------------------------------ records round-trip *)
 
@@ -103,19 +111,20 @@ Print Assumptions cf_versions_kept.
 (* A record is written and read, a flavor g is added or redeclared (addFlavor), the record is
    written with trimDir and read again: every other flavor f whose block has a PROD_DIR entry
    reads back exactly as before (as a map).  The hypotheses say that the rewritten record is
-   inside the alphabet and that block f holds no existing path that write would trim (true of
-   every block that was itself written with trimDir, whose paths are relative). *)
-Theorem rewrite_one_flavor_keeps_others r who now g d t u f i ex td m' :
+   inside the alphabet and that block f holds no existing absolute path that write would trim
+   (true of every block that was itself written with trimDir, whose paths are relative; which
+   relative names exist in the current directory does not matter). *)
+Theorem rewrite_one_flavor_keeps_others r who now g d t u f i pe ex td m' :
   wf_vfile r = true -> vf_info r <> [] ->
   f <> g -> alookup f (vf_info r) = Some i -> amem k_productDir i = true ->
-  (forall k s, alookup k (norm_info i) = Some (Some s) -> ex s = false) ->
+  (forall k s, alookup k (norm_info i) = Some (Some s) -> isabs s = true -> ex s = false) ->
   let x := add_flavor who now g d t u (norm r) in
-  trim_all true ex td (vf_info x) = Ok m' ->
+  trim_all true pe ex td (vf_info x) = Ok m' ->
   let x' := {| vf_name := vf_name x; vf_version := vf_version x; vf_info := m' |} in
   wf_vfile x' = true ->
   exists l1 l2 r2 i2,
     vf_lines r = Ok l1 /\ vf_read (vf_name r) (vf_version r) l1 = Ok (norm r) /\
-    vf_write ex td x = Ok l2 /\ vf_read (vf_name r) (vf_version r) l2 = Ok r2 /\
+    vf_write pe ex td x = Ok l2 /\ vf_read (vf_name r) (vf_version r) l2 = Ok r2 /\
     alookup f (vf_info r2) = Some i2 /\
     forall k, alookup k i2 = alookup k (norm_info i).
 Proof.
@@ -191,19 +200,24 @@ Print Assumptions chain_rewrite_keeps_others.
 
 (* ------------------------------------------------------------------ relocation *)
 
-(* The general statement.  A product with directory placement dk and table placement tk is
-   declared as a new flavor f of a record r of a stack at root.  Then, for every stack root
-   root' and every state ex' of the file system there in which the table file is where it
-   belongs, looking the flavor up resolves the directory to dir_at root' dk and the table file
-   to table_at root' dk tk: inside locations follow the root, outside ones and none do not
-   mention it. *)
-Theorem relocate ex who now n v f root dk tk r :
-  wf_abs root = true -> wf_dirk dk = true -> wf_place root dk = true -> tab_ok root dk tk = true ->
+(* The general statement.  A stack is named root on EUPS_PATH; that name may reach the stack
+   directory rroot through symbolic links (the stack directory itself, or a directory above
+   it, is a link: link_view).  A product with directory placement dk and table placement tk,
+   its paths spelt with the name root, is declared as a new flavor f of a record r.  Then, for
+   every stack root root' - the link, the resolved directory, or wherever the stack is moved or
+   copied to afterwards - and every state ex' of the file system there in which the table file
+   is where it belongs, looking the flavor up resolves the directory to dir_at root' dk and the
+   table file to table_at root' dk tk: inside locations follow the root, outside ones and none
+   do not mention it.  The current directory of the declaring process (pe_cwd pe) and the
+   relative names that exist in it (ex on relative names) are not constrained. *)
+Theorem relocate_linked pe ex who now n v f root rroot dk tk r :
+  wf_abs root = true -> wf_abs rroot = true -> link_view (pe_links pe) root rroot ->
+  wf_dirk dk = true -> wf_place root dk = true -> tab_ok root dk tk = true -> out_real pe rroot dk tk ->
   decl_ok ex root dk tk -> ex who = false -> ex now = false ->
   vf_name r = Some n -> vf_version r = Some v ->
-  alookup f (vf_info r) = None -> blocks_inert ex root (vf_info r) ->
+  alookup f (vf_info r) = None -> blocks_inert pe ex rroot (vf_info r) ->
   exists r',
-    declare_rec true ex who now
+    declare_rec true pe ex who now
       (prod_of n v f (Some (dir_given root dk)) (Some (fst (table_given root dk tk)))
                (Some (db_of root)) (snd (table_given root dk tk))) r = Ok r' /\
     akeys (vf_info r') = akeys (vf_info r) ++ [f] /\
@@ -212,8 +226,8 @@ Theorem relocate ex who now n v f root dk tk r :
                 p_dir q = Some (dir_at root' dk) /\ p_table q = Some (table_at root' dk tk) /\
                 p_db q = Some (db_of root').
 Proof.
-  intros HR Hd Hp Ht Hdecl Hw Hn En Ev Hf Hin.
-  eexists. split; [now apply declare_stores|]. split.
+  intros HR HRR LV Hd Hp Ht Ho Hdecl Hw Hn En Ev Hf Hin.
+  eexists. split; [now apply (declare_stores pe ex who now n v f root rroot)|]. split.
   - cbn [vf_info]. rewrite akeys_app. reflexivity.
   - intros root' ex' HR' Hfind. eexists. split.
     + eapply (find_resolves ex' n v f root' dk tk); try eassumption.
@@ -222,28 +236,54 @@ Proof.
       * apply block_of_holds.
     + repeat split.
 Qed.
+Print Assumptions relocate_linked.
+
+(* Without symbolic links: the name of the stack is the stack, and the outside conditions are
+   those of the placement. *)
+Theorem relocate pe ex who now n v f root dk tk r :
+  pe_links pe = [] ->
+  wf_abs root = true -> wf_dirk dk = true -> wf_place root dk = true -> tab_ok root dk tk = true ->
+  decl_ok ex root dk tk -> ex who = false -> ex now = false ->
+  vf_name r = Some n -> vf_version r = Some v ->
+  alookup f (vf_info r) = None -> blocks_inert pe ex root (vf_info r) ->
+  exists r',
+    declare_rec true pe ex who now
+      (prod_of n v f (Some (dir_given root dk)) (Some (fst (table_given root dk tk)))
+               (Some (db_of root)) (snd (table_given root dk tk))) r = Ok r' /\
+    akeys (vf_info r') = akeys (vf_info r) ++ [f] /\
+    forall root' ex', wf_abs root' = true -> find_ok ex' root' dk tk ->
+      exists q, make_product ex' r' f (Some root') (Some (db_of root')) = Some q /\
+                p_dir q = Some (dir_at root' dk) /\ p_table q = Some (table_at root' dk tk) /\
+                p_db q = Some (db_of root').
+Proof.
+  intros E HR Hd Hp Ht. apply relocate_linked; auto.
+  - rewrite E. apply link_view_nil.
+  - now apply out_real_nolinks.
+Qed.
 Print Assumptions relocate.
 
-(* The same through the text of a freshly created version file: Database.declare writes it,
-   the stack is moved, Database.findProduct reads it. *)
-Theorem relocate_through_text ex who now n v f root dk tk :
-  wf_abs root = true -> wf_dirk dk = true -> wf_place root dk = true -> tab_ok root dk tk = true ->
+(* The same through the text of a freshly created version file: Database.declare writes it
+   (the stack possibly reached through links), the stack is moved, Database.findProduct reads
+   it. *)
+Theorem relocate_through_text pe ex who now n v f root rroot dk tk :
+  wf_abs root = true -> wf_abs rroot = true -> link_view (pe_links pe) root rroot ->
+  wf_dirk dk = true -> wf_place root dk = true -> tab_ok root dk tk = true -> out_real pe rroot dk tk ->
   decl_ok ex root dk tk -> ex who = false -> ex now = false ->
   wf_value n = true -> wf_value v = true -> wf_flavor f = true ->
   wf_value who = true -> wf_value now = true -> wf_value (dir_stored dk) = true ->
   wf_value (fst (table_stored tk)) = true -> wf_value (snd (table_stored tk)) = true ->
   exists lines,
-    db_declare ex who now
+    db_declare pe ex who now
       (prod_of n v f (Some (dir_given root dk)) (Some (fst (table_given root dk tk)))
                (Some (db_of root)) (snd (table_given root dk tk))) None = Ok lines /\
     forall root' ex', wf_abs root' = true -> find_ok ex' root' dk tk ->
       exists q, db_find ex' (Some n) (Some v) f (Some root') (Some (db_of root')) lines = Ok (Some q) /\
                 p_dir q = Some (dir_at root' dk) /\ p_table q = Some (table_at root' dk tk).
 Proof.
-  intros HR Hd Hp Ht Hdecl Hw Hn Wn Wv Wf Wwho Wnow Wd Wt Wu.
+  intros HR HRR LV Hd Hp Ht Ho Hdecl Hw Hn Wn Wv Wf Wwho Wnow Wd Wt Wu.
   set (r0 := {| vf_name := Some n; vf_version := Some v; vf_info := [] |}).
-  pose proof (declare_stores ex who now n v f root dk tk r0 HR Hd Hp Ht Hdecl Hw Hn eq_refl) as D.
-  assert (Hin : blocks_inert ex root (vf_info r0)) by (intros g j []).
+  pose proof (declare_stores pe ex who now n v f root rroot dk tk r0 HR HRR LV Hd Hp Ht Ho Hdecl Hw Hn eq_refl) as D.
+  assert (Hin : blocks_inert pe ex rroot (vf_info r0)) by (intros g j []).
   specialize (D Hin). cbn [r0 vf_name vf_version vf_info app] in D.
   set (B := block_of who now (dir_stored dk) (fst (table_stored tk)) (snd (table_stored tk))) in *.
   set (r' := {| vf_name := Some n; vf_version := Some v; vf_info := [(f, B)] |}) in *.
@@ -272,7 +312,7 @@ Proof.
   - destruct (wf_value_nonempty _ Wn) as [? [? En]]. destruct (wf_value_nonempty _ Wv) as [? [? Ev]].
     assert (Wf' : wf_value f = true) by (unfold wf_flavor in Wf; apply andb_true_iff in Wf; tauto).
     destruct (wf_value_nonempty _ Wf') as [? [? Ef]].
-    rewrite (db_declare_fresh ex who now _ r'); [exact EL| | | |exact D];
+    rewrite (db_declare_fresh pe ex who now _ r'); [exact EL| | | |exact D];
       cbn [prod_of p_name p_version p_flavor]; [rewrite En|rewrite Ev|rewrite Ef]; reflexivity.
   - intros root' ex' HR' Hfind. unfold db_find.
     rewrite (RL (Some n) (Some v)) by (right; reflexivity). cbn [bind].
@@ -286,6 +326,17 @@ Proof.
     + split; reflexivity.
 Qed.
 Print Assumptions relocate_through_text.
+
+(* What write(trimDir) prints does not depend on the directory the process is in, nor on which
+   relative names exist there: two runs that agree on the links and on the existence of
+   absolute names print the same record. *)
+Theorem write_independent_of_cwd pe pe' ex ex' td r :
+  isabs td = true -> pe_links pe = pe_links pe' -> (forall s, isabs s = true -> ex s = ex' s) ->
+  vf_write pe ex (Some td) r = vf_write pe' ex' (Some td) r.
+Proof.
+  intros HA HL HE. unfold vf_write, vf_write_gen. now rewrite (trim_all_cwd pe pe' ex ex').
+Qed.
+Print Assumptions write_independent_of_cwd.
 
 (* The three clauses of the property read off [relocate]. *)
 
@@ -341,11 +392,15 @@ Example wf_cfile_inhabited : wf_cfile ex_cfile = true /\ cf_info ex_cfile <> [].
 Proof. split; [vm_compute; reflexivity|discriminate]. Qed.
 
 (* a stack with a space in its name; the product inside with its own table, a second flavor
-   outside with a table elsewhere in the stack *)
+   outside with a table elsewhere in the stack.  The declaring process sits in the product
+   directory, where the relative names ups, prod.table and Linux64/prod/1.0 exist too. *)
 Definition ex_root : str := lit "/data/my stack".
 Definition ex_files : list str :=
-  [ex_root; lit "/data/my stack/Linux64/prod/1.0/ups/prod.table"; lit "/data/my stack/site/prod.table"].
+  [ex_root; lit "/data/my stack/Linux64/prod/1.0"; lit "/data/my stack/Linux64/prod/1.0/ups";
+   lit "/data/my stack/Linux64/prod/1.0/ups/prod.table"; lit "/data/my stack/site/prod.table";
+   lit "ups"; lit "prod.table"; lit "Linux64/prod/1.0"; lit "alice-elsewhere"].
 Definition ex_ex (s : str) : bool := mem_str s ex_files.
+Definition ex_pe : penv := {| pe_links := []; pe_cwd := lit "/data/my stack/Linux64/prod/1.0" |}.
 
 Example relocate_hypotheses_inhabited :
   wf_abs ex_root = true /\
@@ -354,19 +409,22 @@ Example relocate_hypotheses_inhabited :
   tab_ok ex_root (DOut (lit "/opt/else where/prod")) (TAbsIn (lit "site/prod.table")) = true /\
   tab_ok ex_root DNone (TInterned (lit "Linux64/prod/1.0") (lit "prod.table")) = true /\
   tab_ok ex_root (DIn (lit "Linux64/prod/1.0")) (TAbsOut (lit "/opt/else where/t/prod.table")) = true /\
-  ex_ex (table_at ex_root (DIn (lit "Linux64/prod/1.0")) (TUps (lit "prod.table"))) = true /\
-  ex_ex ex_root = true /\ forallb isabs ex_files = true.
+  decl_ok ex_ex ex_root (DIn (lit "Linux64/prod/1.0")) (TUps (lit "prod.table")) /\
+  decl_ok ex_ex ex_root (DOut (lit "/opt/else where/prod")) (TAbsIn (lit "site/prod.table")) /\
+  ex_ex (lit "alice") = false /\ ex_ex (lit "ups") = true /\ pe_links ex_pe = [].
 Proof. repeat split; vm_compute; reflexivity. Qed.
 
-(* the whole pipeline on that example, computed: declare at the old root, look up at a new one *)
+(* the whole pipeline on that example, computed: declare at the old root from inside the
+   product directory, look up at a new one *)
 Example relocate_computed :
   let p := prod_of (lit "prod") (lit "1.0") (lit "Linux64")
              (Some (lit "/data/my stack/Linux64/prod/1.0"))
              (Some (lit "/data/my stack/Linux64/prod/1.0/ups/prod.table"))
              (Some (db_of ex_root)) (Some s_ups) in
   exists lines,
-    db_declare ex_ex (lit "alice") (lit "today") p None = Ok lines /\
-    In (lit "   PROD_DIR = Linux64/prod/1.0") lines /\ In (lit "   TABLE_FILE = prod.table") lines /\
+    db_declare ex_pe ex_ex (lit "alice") (lit "today") p None = Ok lines /\
+    In (lit "   PROD_DIR = Linux64/prod/1.0") lines /\ In (lit "   UPS_DIR = ups") lines /\
+    In (lit "   TABLE_FILE = prod.table") lines /\
     exists q,
       db_find (fun s => str_eqb s (lit "/new/place/Linux64/prod/1.0/ups/prod.table"))
               (Some (lit "prod")) (Some (lit "1.0")) (lit "Linux64")
@@ -375,10 +433,106 @@ Example relocate_computed :
       p_table q = Some (lit "/new/place/Linux64/prod/1.0/ups/prod.table").
 Proof.
   eexists. split; [vm_compute; reflexivity|]. split; [vm_compute; tauto|]. split; [vm_compute; tauto|].
+  split; [vm_compute; tauto|].
   eexists. split; [vm_compute; reflexivity|]. split; reflexivity.
 Qed.
 
-(* ------------------------------------------------------------------ the pinned code (before the two fix: commits) *)
+(* ---- the same stack reached through symbolic links *)
+
+(* /data/lnk is a link to the stack directory; /data/lp is a link to the directory above a
+   second stack *)
+Definition ex_lk : links := [(lit "/data/lnk", lit "/data/my stack"); (lit "/data/lp", lit "/srv/par ent")].
+Definition ex_pe_lnk : penv := {| pe_links := ex_lk; pe_cwd := lit "/data/lnk/Linux64/prod/1.0" |}.
+(* what exists, by resolved name; a path is looked up by the name it resolves to *)
+Definition ex_real : list str :=
+  [ex_root; lit "/data/my stack/Linux64/prod/1.0"; lit "/data/my stack/Linux64/prod/1.0/ups";
+   lit "/data/my stack/Linux64/prod/1.0/ups/prod.table"; lit "/data/my stack/site/prod.table";
+   lit "/srv/par ent/stack"; lit "/srv/par ent/stack/site/prod.table"].
+Definition ex_ex_lnk : str -> bool := ex_via ex_lk (fun s => mem_str s ex_real).
+
+Lemma ex_link_view_stack : link_view [(lit "/data/lnk", lit "/data/my stack")] (lit "/data/lnk") ex_root.
+Proof.
+  pose proof (link_view_single (lit "/data/lnk") (lit "/data/my stack") [] eq_refl eq_refl) as H.
+  now rewrite !app_nil_r in H.
+Qed.
+
+Lemma ex_link_view_parent :
+  link_view [(lit "/data/lp", lit "/srv/par ent")] (lit "/data/lp/stack") (lit "/srv/par ent/stack").
+Proof. exact (link_view_single (lit "/data/lp") (lit "/srv/par ent") (lit "/stack") eq_refl eq_refl). Qed.
+
+Example relocate_linked_hypotheses_inhabited :
+  let pe1 := {| pe_links := [(lit "/data/lnk", lit "/data/my stack")]; pe_cwd := lit "/data/lnk/Linux64/prod/1.0" |} in
+  let pe2 := {| pe_links := [(lit "/data/lp", lit "/srv/par ent")]; pe_cwd := lit "/" |} in
+  let ex1 := ex_via (pe_links pe1) (fun s => mem_str s ex_real) in
+  let ex2 := ex_via (pe_links pe2) (fun s => mem_str s ex_real) in
+  (* the stack directory is a link *)
+  link_view (pe_links pe1) (lit "/data/lnk") ex_root /\ lit "/data/lnk" <> ex_root /\
+  wf_abs (lit "/data/lnk") = true /\ wf_abs ex_root = true /\
+  tab_ok (lit "/data/lnk") (DIn (lit "Linux64/prod/1.0")) (TUps (lit "prod.table")) = true /\
+  out_real pe1 ex_root (DIn (lit "Linux64/prod/1.0")) (TUps (lit "prod.table")) /\
+  decl_ok ex1 (lit "/data/lnk") (DIn (lit "Linux64/prod/1.0")) (TUps (lit "prod.table")) /\
+  (* a directory above the stack is a link; product outside, table elsewhere in the stack *)
+  link_view (pe_links pe2) (lit "/data/lp/stack") (lit "/srv/par ent/stack") /\
+  wf_place (lit "/data/lp/stack") (DOut (lit "/opt/else where/prod")) = true /\
+  tab_ok (lit "/data/lp/stack") (DOut (lit "/opt/else where/prod")) (TAbsIn (lit "site/prod.table")) = true /\
+  out_real pe2 (lit "/srv/par ent/stack") (DOut (lit "/opt/else where/prod")) (TAbsIn (lit "site/prod.table")) /\
+  out_real pe2 (lit "/srv/par ent/stack") DNone (TAbsOut (lit "/opt/else where/t/prod.table")) /\
+  decl_ok ex2 (lit "/data/lp/stack") (DOut (lit "/opt/else where/prod")) (TAbsIn (lit "site/prod.table")).
+Proof.
+  cbv zeta. split; [exact ex_link_view_stack|]. split; [discriminate|].
+  do 5 (split; [vm_compute; auto|]).
+  split; [exact ex_link_view_parent|].
+  repeat split; vm_compute; reflexivity.
+Qed.
+
+(* computed: the product is declared while EUPS_PATH names the stack by the link (and the
+   process sits in the product directory, reached by the link); the record is relative to
+   the stack; it is then looked up through the link, through the resolved name, and after
+   the stack has been moved *)
+Example relocate_linked_computed :
+  let p := prod_of (lit "prod") (lit "1.0") (lit "Linux64")
+             (Some (lit "/data/lnk/Linux64/prod/1.0"))
+             (Some (lit "/data/lnk/Linux64/prod/1.0/ups/prod.table"))
+             (Some (db_of (lit "/data/lnk"))) (Some s_ups) in
+  exists lines,
+    db_declare ex_pe_lnk ex_ex_lnk (lit "alice") (lit "today") p None = Ok lines /\
+    In (lit "   PROD_DIR = Linux64/prod/1.0") lines /\ In (lit "   UPS_DIR = ups") lines /\
+    In (lit "   TABLE_FILE = prod.table") lines /\
+    forall root', In root' [lit "/data/lnk"; ex_root; lit "/new/place"] ->
+      exists q,
+        db_find (fun s => str_eqb s (root' ++ lit "/Linux64/prod/1.0/ups/prod.table"))
+                (Some (lit "prod")) (Some (lit "1.0")) (lit "Linux64")
+                (Some root') (Some (db_of root')) lines = Ok (Some q) /\
+        p_dir q = Some (root' ++ lit "/Linux64/prod/1.0") /\
+        p_table q = Some (root' ++ lit "/Linux64/prod/1.0/ups/prod.table").
+Proof.
+  eexists. split; [vm_compute; reflexivity|]. split; [vm_compute; tauto|]. split; [vm_compute; tauto|].
+  split; [vm_compute; tauto|].
+  intros root' [<-|[<-|[<-|[]]]]; (eexists; split; [vm_compute; reflexivity|]; split; reflexivity).
+Qed.
+
+(* a second flavor added through the link to a version file that was written through the
+   resolved name: the first flavor's block is printed as it was *)
+Example second_flavor_through_link_computed :
+  let p1 := prod_of (lit "prod") (lit "1.0") (lit "Linux64")
+             (Some (lit "/data/my stack/Linux64/prod/1.0"))
+             (Some (lit "/data/my stack/Linux64/prod/1.0/ups/prod.table"))
+             (Some (db_of ex_root)) (Some s_ups) in
+  let p2 := prod_of (lit "prod") (lit "1.0") (lit "Darwin") (Some (lit "/opt/else where/prod"))
+             (Some (lit "/data/lnk/site/prod.table")) (Some (db_of (lit "/data/lnk"))) (Some s_ups) in
+  exists l1 l2,
+    db_declare ex_pe ex_ex (lit "alice") (lit "today") p1 None = Ok l1 /\
+    db_declare ex_pe_lnk ex_ex_lnk (lit "bob") (lit "later") p2 (Some l1) = Ok l2 /\
+    (forall x, In x l1 -> x <> lit "End:" -> In x l2) /\
+    In (lit "   PROD_DIR = /opt/else where/prod") l2 /\ In (lit "   TABLE_FILE = site/prod.table") l2.
+Proof.
+  eexists. eexists. split; [vm_compute; reflexivity|]. split; [vm_compute; reflexivity|].
+  split; [|split; vm_compute; tauto].
+  intros x Hx N. vm_compute in Hx. vm_compute.
+  repeat (destruct Hx as [<-|Hx]; [tauto|]). destruct Hx.
+Qed.
+
+(* ------------------------------------------------------------------ the pinned code (before the three fix: commits) *)
 
 (* D22: canonicalizePaths tested startswith(db) without a separator: a product directory
    whose path begins like the database directory had its own table file recorded as UPS_DB/ *)
@@ -394,6 +548,52 @@ Proof. split; vm_compute; reflexivity. Qed.
 Example write_none_value_refuted_pinned :
   let r := {| vf_name := Some (lit "p"); vf_version := Some (lit "1");
               vf_info := [(lit "A", [(k_ups_dir, Some s_none); (k_productDir, None); (k_table_file, Some s_none)])] |} in
-  vf_write_gen false (fun _ => false) None r = Err Crash /\
-  exists lines, vf_write_gen true (fun _ => false) None r = Ok lines /\ In (lit "   PROD_DIR = none") lines.
+  vf_write_gen false env0 (fun _ => false) None r = Err Crash /\
+  exists lines, vf_write_gen true env0 (fun _ => false) None r = Ok lines /\ In (lit "   PROD_DIR = none") lines.
 Proof. split; [vm_compute; reflexivity|]. eexists. split; [vm_compute; reflexivity|]. vm_compute. tauto. Qed.
+
+(* The pinned write looked relative values up in the current directory.  Declared from inside
+   the product directory (which has a ups subdirectory) the relative UPS_DIR value ups was
+   found to exist below the stack and was rewritten relative to the stack; the product then
+   read back with a table file that does not exist.  From any other directory, and with the
+   repaired write from every directory, the record is UPS_DIR = ups. *)
+Example write_relative_values_refuted_pinned :
+  let r := {| vf_name := Some (lit "p"); vf_version := Some (lit "1.0");
+              vf_info := [(lit "Linux64", [(k_productDir, Some (lit "Linux64/p/1.0"));
+                                           (k_table_file, Some (lit "/s/Linux64/p/1.0/ups/p.table"));
+                                           (k_ups_dir, Some s_ups)])] |} in
+  let files := [lit "/s"; lit "/s/Linux64/p/1.0"; lit "/s/Linux64/p/1.0/ups"; lit "/s/Linux64/p/1.0/ups/p.table"] in
+  let ex := fun s => mem_str s files in
+  let inside := {| pe_links := []; pe_cwd := lit "/s/Linux64/p/1.0" |} in
+  let elsewhere := {| pe_links := []; pe_cwd := lit "/home/alice" |} in
+  (exists lines, vf_write_gen false inside ex (Some (lit "/s")) r = Ok lines /\
+     In (lit "   UPS_DIR = Linux64/p/1.0/ups") lines /\
+     exists q, db_find ex None None (lit "Linux64") (Some (lit "/s")) (Some (lit "/s/ups_db")) lines = Ok (Some q) /\
+               p_table q = Some (lit "/s/Linux64/p/1.0/Linux64/p/1.0/ups/p.table") /\
+               ex (lit "/s/Linux64/p/1.0/Linux64/p/1.0/ups/p.table") = false) /\
+  (exists lines, vf_write_gen false elsewhere ex (Some (lit "/s")) r = Ok lines /\ In (lit "   UPS_DIR = ups") lines) /\
+  (exists lines, vf_write_gen true inside ex (Some (lit "/s")) r = Ok lines /\
+     vf_write_gen true elsewhere ex (Some (lit "/s")) r = Ok lines /\
+     In (lit "   UPS_DIR = ups") lines /\
+     exists q, db_find ex None None (lit "Linux64") (Some (lit "/s")) (Some (lit "/s/ups_db")) lines = Ok (Some q) /\
+               p_table q = Some (lit "/s/Linux64/p/1.0/ups/p.table")).
+Proof.
+  cbv zeta. split; [|split].
+  - eexists. split; [vm_compute; reflexivity|]. split; [vm_compute; tauto|].
+    eexists. split; [vm_compute; reflexivity|]. split; vm_compute; reflexivity.
+  - eexists. split; [vm_compute; reflexivity|]. vm_compute; tauto.
+  - eexists. split; [vm_compute; reflexivity|]. split; [vm_compute; reflexivity|]. split; [vm_compute; tauto|].
+    eexists. split; [vm_compute; reflexivity|]. vm_compute; reflexivity.
+Qed.
+
+(* What a write that resolves the values but not trimDir would do (seeded change C16-5): the
+   resolved table file is cut at the length of the link name. *)
+Example realpath_of_both_sides_matters :
+  realpath ex_lk (lit "/data/lnk/Linux64/prod/1.0/ups/prod.table")
+    = lit "/data/my stack/Linux64/prod/1.0/ups/prod.table" /\
+  realpath ex_lk (lit "/data/lnk") = ex_root /\
+  after (length (lit "/data/lnk")) (lit "/data/my stack/Linux64/prod/1.0/ups/prod.table")
+    = lit "tack/Linux64/prod/1.0/ups/prod.table" /\
+  after (length ex_root) (lit "/data/my stack/Linux64/prod/1.0/ups/prod.table")
+    = lit "Linux64/prod/1.0/ups/prod.table".
+Proof. repeat split; vm_compute; reflexivity. Qed.
